@@ -335,10 +335,22 @@ E("short-circuit-and-renamed", "src/compile.rs",
                 let panic_before_y = panic_before_rhs;""", "renamed locals and a named copy")
 
 
+# refactorings written by independent sub-agents (one patch each, against the tree they were written on)
+PATCH_DIR = os.path.join(VERIF, "selftest", "refactor_patches")
+if os.path.isdir(PATCH_DIR):
+    for fn in sorted(os.listdir(PATCH_DIR)):
+        if fn.endswith(".diff"):
+            R.append(dict(name=fn[:-5], edits=[], patch=os.path.join(PATCH_DIR, fn), note="sub-agent refactoring"))
+
+
 def run_one(r, props):
     tmp = tempfile.mkdtemp(prefix="glrefac-")
     try:
         subprocess.run(["rsync", "-a", "--exclude", "target", "--exclude", ".git", REPO + "/", tmp + "/"], check=True)
+        if r.get("patch"):
+            a = subprocess.run(["patch", "-p1", "--no-backup-if-mismatch", "-s", "-i", r["patch"]], cwd=tmp, stdout=subprocess.PIPE, stderr=subprocess.STDOUT, text=True)
+            if a.returncode != 0:
+                return dict(name=r["name"], status="stale-patch", detail=a.stdout[-200:])
         for (file, old, new) in r["edits"]:
             p = os.path.join(tmp, file)
             s = open(p).read()
@@ -378,7 +390,7 @@ def main():
     bad = 0
     for r in results:
         print("%-14s %-34s %s" % (r["status"], r["name"], r.get("fired") or r.get("undecided") or r.get("detail") or ""))
-        if r["status"] in ("FALSE-ALARM", "does-not-compile", "anchor-lost"):
+        if r["status"] in ("FALSE-ALARM", "does-not-compile", "anchor-lost"):   # (a stale sub-agent patch is reported, not counted)
             bad += 1
     print("%d refactorings, %d quiet, %d undecided, %d wrong" % (len(results), sum(r["status"] == "quiet" for r in results),
                                                                  sum(r["status"] == "undecided" for r in results), bad))
